@@ -246,3 +246,56 @@ Example C04_example_output :
   | inl _ => False
   end.
 Proof. vm_compute. reflexivity. Qed.
+
+(* ---- loop ties (per-row code, control flow and a loop body translated from /repo on every run; LOOP_TIES_GUIDE) ---- *)
+From CNV Require Gen.FnFixRows Gen.FnFixClassWt Gen.FnFixLow Gen.FnFixCorrections Gen.FnFixEdge.
+From CNV Require Import Proofs.FnFixRows Proofs.FnFixCorrections Proofs.FnFixEdge.
+
+(* center_by_window, per row: `df["log2"] -= biases` on the shuffled, key-sorted rows, then sorted back *)
+Theorem C04_source_window_rows : forall perm wing keys l,
+  center_by_window perm wing keys l
+  = let sorted := map snd (stable_sort key_leb (pick (combine keys l) perm)) in
+    sort_brows (map py_window_row (combine sorted (rolling wing (map blog2 sorted)))).
+Proof. exact source_window_rows. Qed.
+
+(* do_fix, per row: `cnarr.data["log2"] -= ref_matched[log2_key]` on the combined target + antitarget table *)
+Theorem C04_source_subtract_reference : forall c o target anti ref,
+  fix_pre c o target anti ref
+  = match load_adjust c ref true (perm_t o) (wing_t o) target with
+    | inl e => inl e
+    | inr t =>
+      match load_adjust c ref false (perm_a o) (wing_a o) anti with
+      | inl e => inl e
+      | inr a => inr (map py_ref_row (match a with [] => t | _ => sort_brows (t ++ a) end))
+      end
+    end.
+Proof. exact source_subtract_reference. Qed.
+
+(* apply_weights, per row: the two masked stores pick the class's size weight (off-target variance and mean size for
+   an Antitarget-named bin, on-target otherwise); the model's weight is the generated arithmetic on that value *)
+Theorem C04_source_class_weights : forall pooled anti var_t var_a sz mt ma spread,
+  let simple := py_simple_wt anti (Gen.FnFixWeights.fn_tgt_simple_wt var_t sz mt)
+                                  (Gen.FnFixWeights.fn_anti_simple_wt var_a sz ma) in
+  (bin_weight pooled (if anti then var_a else var_t) sz (if anti then ma else mt) spread
+   == (if pooled then Gen.FnFixWeights.fn_weight_pooled spread simple weight_epsilon
+       else Gen.FnFixWeights.fn_weight_flat simple weight_epsilon))%Q.
+Proof. exact source_class_weights. Qed.
+
+(* load_adjust_coverages: the corrections are skipped when at most half of the rows exceed the low-coverage cut ... *)
+Theorem C04_source_mostly_low : forall l sf,
+  mostly_low l
+  = Gen.FnFixLow.fn_mostly_low
+      (Z.of_nat (length (filter (fun b => Gen.FnFixLow.fn_low_row (blog2 b) NULL_LOG2_COVERAGE MIN_REF_COVERAGE sf) l)))
+      (Z.of_nat (length l)) sf.
+Proof. exact source_mostly_low. Qed.
+
+(* ... otherwise GC, then edge density, then RepeatMasker, each only when requested (and the reference has the column),
+   each computed from the table the previous statements leave: the model's corrections *)
+Theorem C04_source_corrections : forall c fix_gc fix_edge fix_rmask perm wing l,
+  corrections c fix_gc fix_edge fix_rmask perm wing l = py_corrections c fix_gc fix_edge fix_rmask perm wing l.
+Proof. exact source_corrections. Qed.
+
+(* get_edge_bias, the loop body per gap and per tile, composed along a chromosome = the model's edge_go *)
+Theorem C04_source_edge_bias : forall l (prev : option (Z * Z)),
+  Forall2 Qeq (edge_go (option_map snd prev) l) (py_edge_go prev l).
+Proof. exact source_edge_go. Qed.
